@@ -75,6 +75,8 @@ type tcase struct {
 	// with the names of the deviations this configuration then exercises. A failing case whose real outcome is exactly
 	// one of those predictions is attributed to these deviations (signature = their names).
 	Alts []alt `json:"alts"`
+	// Special: a deviation of the pinned code applies to this configuration (its events are not trace-validated)
+	Special bool `json:"special"`
 }
 
 type alt struct {
@@ -531,13 +533,21 @@ func main() {
 		srng := rand.New(rand.NewSource(seed))
 		for r := 1; r <= reps; r++ {
 			for _, c := range cases {
-				if len(c.Alts) > 0 {
+				if c.Special || len(c.Alts) > 0 {
 					continue // the recorded runs are validated against the rules the property demands
 				}
 				hooked = append(hooked, job{c: c, w: workers[1+srng.Intn(2)], rep: r, hooked: true})
 			}
 		}
 		srng.Shuffle(len(hooked), func(i, j int) { hooked[i], hooked[j] = hooked[j], hooked[i] })
+		// runs in which more events than workers can be in flight come first (and use W = 2): these are the runs in
+		// which the semaphore bound and the hand-over between workers are visible in the recorded events
+		sort.SliceStable(hooked, func(i, j int) bool { return len(hooked[i].c.Files) >= 3 && len(hooked[j].c.Files) < 3 })
+		for i := range hooked {
+			if len(hooked[i].c.Files) >= 3 && i%4 != 3 {
+				hooked[i].w = 2
+			}
+		}
 		if maxHooked > 0 && len(hooked) > maxHooked {
 			hooked = hooked[:maxHooked]
 		}
@@ -623,7 +633,7 @@ func main() {
 					args := generatecmd.Arguments{Path: root, WorkerCount: j.w, KeepOrphanedFiles: c.Flags.Keep, Lazy: c.Flags.Lazy, IncludeVersion: c.Flags.Ver}
 					var trace []traceLine
 					var after1 snapshot
-					record := j.hooked && traceOut != nil && j.n%traceEvery == 0
+					record := j.hooked && traceOut != nil && (j.n%traceEvery == 0 || (len(c.Files) >= 3 && j.n < maxTraced/2))
 					rng := rand.New(rand.NewSource(seed*1000003 + int64(c.ID)*31 + int64(j.w)*7 + int64(j.rep)))
 					for run := 1; run <= 2 && len(fl) == 0; run++ {
 						if record {
